@@ -123,6 +123,7 @@ type c07run struct {
 	in       c07In
 	inst     *schedx.Inst
 	evs      []string
+	enc      []byte
 	started  int
 	ret      []int32
 	startedW []bool
@@ -137,8 +138,41 @@ type c07run struct {
 	loopHeld int // tokens taken by the harness-played loop and not yet acknowledged (always 0 between ops)
 }
 
-func (c *c07run) lab(s string)                    { c.evs = append(c.evs, "L ("+s+")") }
+func (c *c07run) lab(s string)                    { c.ev("L (" + s + ")") }
 func (c *c07run) labf(f string, a ...interface{}) { c.lab(fmt.Sprintf(f, a...)) }
+
+// ev appends an event in its Gallina spelling (kept in the evidence) and in the compact byte
+// encoding decoded by Corr/C07.v [decode].
+func (c *c07run) ev(s string) {
+	c.evs = append(c.evs, s)
+	c.enc = append(c.enc, c07Encode(s)...)
+}
+
+var c07Op0 = map[string]byte{"LStart": 5, "LRecv": 6, "LTick": 7, "LCkpt": 8, "LFl": 9, "LAckL": 10, "EnvShut": 11, "LShut": 12, "LShutC": 13}
+var c07OpN = map[string]byte{"Enq": 0, "RdHave": 1, "RdLen": 2, "SendTok": 3, "InlFl": 4, "ORet": 16, "OVis": 18, "OFch": 19, "OWch": 20, "OHave": 21}
+
+func c07Encode(s string) []byte {
+	s = strings.TrimSuffix(strings.TrimPrefix(s, "L ("), ")")
+	f := strings.Fields(s)
+	if b, ok := c07Op0[f[0]]; ok {
+		return []byte{b}
+	}
+	out := []byte{c07OpN[f[0]]}
+	for _, a := range f[1:] {
+		switch a {
+		case "true":
+			out = append(out, 1)
+		case "false":
+			out = append(out, 0)
+		default:
+			var n int
+			fmt.Sscan(a, &n)
+			out = append(out, byte(n))
+		}
+	}
+	return out
+}
+
 func (c *c07run) nReturned() int {
 	n := 0
 	for w := range c.ret {
@@ -187,7 +221,7 @@ func cmdsStr(b []schedx.Cmd) string {
 func (c *c07run) observe(opIdx int) {
 	for w := range c.in.Ks {
 		b := atomic.LoadInt32(&c.ret[w]) == 1
-		c.evs = append(c.evs, fmt.Sprintf("ORet %d %s", w, cq.Bool(b)))
+		c.ev(fmt.Sprintf("ORet %d %s", w, cq.Bool(b)))
 	}
 	tgs, err := c.inst.WALGroups()
 	if err != nil {
@@ -203,9 +237,16 @@ func (c *c07run) observe(opIdx int) {
 	}
 	c.obs.TGs = tgs
 	c.evs = append(c.evs, "OWal "+cq.List(tl))
-	c.evs = append(c.evs, fmt.Sprintf("OFch %d", executor.VerifHFlushLen(c.inst.WAL)))
-	c.evs = append(c.evs, fmt.Sprintf("OWch %d", executor.VerifHWriteLen(c.inst.WAL)))
-	c.evs = append(c.evs, "OHave "+cq.Bool(executor.VerifHGetHave()))
+	c.enc = append(c.enc, 17, byte(len(tgs)))
+	for _, g := range tgs {
+		c.enc = append(c.enc, byte(len(g)))
+		for _, x := range g {
+			c.enc = append(c.enc, byte(x[0]), byte(x[1]))
+		}
+	}
+	c.ev(fmt.Sprintf("OFch %d", executor.VerifHFlushLen(c.inst.WAL)))
+	c.ev(fmt.Sprintf("OWch %d", executor.VerifHWriteLen(c.inst.WAL)))
+	c.ev("OHave " + cq.Bool(executor.VerifHGetHave()))
 	for w, k := range c.in.Ks {
 		if !c.startedW[w] || k == 0 {
 			continue
@@ -215,7 +256,7 @@ func (c *c07run) observe(opIdx int) {
 			c.holds, c.detail = false, fmt.Sprintf("query of writer %d failed: %v", w, err)
 		}
 		for i := 0; i < k; i++ {
-			c.evs = append(c.evs, fmt.Sprintf("OVis %d %d %s", w, i, cq.Bool(vis[i])))
+			c.ev(fmt.Sprintf("OVis %d %d %s", w, i, cq.Bool(vis[i])))
 		}
 		// ---- the property: a returned write is in the synced WAL and visible to a query started now
 		if atomic.LoadInt32(&c.ret[w]) == 1 {
@@ -458,7 +499,7 @@ opsLoop:
 	for i, k := range in.Ks {
 		ks[i] = fmt.Sprint(k)
 	}
-	res.Coq = cq.Rec(cq.F("k_ks", cq.List(ks)), cq.F("k_evs", cq.List(c.evs)))
+	res.Coq = cq.Rec(cq.F("k_ks", cq.List(ks)), cq.F("k_enc", cq.Hex(c.enc)))
 	res.Holds, res.Class, res.Detail = c.holds, c.class, c.detail
 	hasEarly, steady := len(c.early) > 0, true
 	for _, e := range c.evs {
@@ -498,7 +539,7 @@ func c07Free(in c07In, raw json.RawMessage) (res Result, err error) {
 		return res, err
 	}
 	defer inst.Close()
-	inst.StartLoop(2 * time.Millisecond)
+	inst.StartLoop(5 * time.Millisecond)
 	type wres struct {
 		retSeq int64
 		vis    map[int]bool
@@ -565,7 +606,7 @@ func c07Free(in c07In, raw json.RawMessage) (res Result, err error) {
 	for i, k := range in.Ks {
 		ks[i] = fmt.Sprint(k)
 	}
-	res.Coq = cq.Rec(cq.F("k_ks", cq.List(ks)), cq.F("k_evs", "[]"))
+	res.Coq = cq.Rec(cq.F("k_ks", cq.List(ks)), cq.F("k_enc", cq.Hex(nil)))
 	res.Tags = []string{"mode:free", fmt.Sprintf("writers=%d", len(in.Ks)), fmt.Sprintf("tgs=%d", len(bs))}
 	return res, nil
 }
